@@ -307,3 +307,9 @@ def c12_4(run):
     if not {('Ok', 'None'), ('Ok', 'Some')} <= seen:
         raise Inconclusive(f'vacuity: {seen}')
     run.require_reached(*run.cur.reach)
+
+
+# ----------------------------------------------------------------------------------------------------------------- shared with C07 / C09
+from obligations import c07 as _c07, c09 as _c09
+obligation('C12', 'C12-5 splitting a block for Celestia: one metadata item plus one rollup-data item per rollup, each carrying this block\'s hash, that rollup\'s transactions and proof (= C07-3)')(_c07.c07_3)
+obligation('C12', 'C12-6 decoding the way conductor does: foreign / undecodable blobs are dropped as a whole, everything else is kept in order (= C09-5)')(_c09.c09_5)
